@@ -116,7 +116,7 @@ class SDRoot:
 
         # In case there is an in-progress download here, we choose the tmd with the smaller number,
         # so we can get the active title
-        tmds.sort(key=lambda x: int(x[0:8]))
+        tmds.sort(key=lambda x: int(x[0:8], 16))
 
         return SDTitleReader(join(sd_path, tmds[0]), case_insensitive=case_insensitive, fs=fs,
                              dev=self._crypto.dev, seed=seed, load_contents=load_contents)
